@@ -112,6 +112,8 @@ class NodeSpec(statex.Spec):
     def dev_cost(self, event):
         if event[0] == 'dlv':
             return 1 if len(event) > 1 else 0       # crash point
+        if event[0] == 'clf':
+            return 1                                # finish() fails
         return 1 if event[0] in _FLAGGED and event[-1] != 1 else 0
 
     def probe(self, history):
@@ -143,7 +145,7 @@ def configs(ctx, salt=None):
     # is a defect of the monitor but not a link, hence not C13
     tomb = {'salt': salt, 'keys': ('a',), 'maxgen': {'a': 2, 'b': 0},
             'bad': {'a': (0,)}, 'late_tomb': True, 'boot': False,
-            'rep': False, 'crash_points': 0}
+            'rep': False, 'crash_points': 0, 'ino_reuse': True}
     # one instance, Cleanup.invoke in two steps (finish; unlink) and the
     # manager killed between creating a container directory and linking it:
     # a resynchronisation that falls inside the cleanup of the older
@@ -151,7 +153,7 @@ def configs(ctx, salt=None):
     cln = {'salt': salt, 'keys': ('a',), 'maxgen': {'a': 2, 'b': 0},
            'bad': {'a': (0,)}, 'late_tomb': False, 'boot': False,
            'rep': True, 'crash_points': 1, 'split_cln': True,
-           'fin': {'a': ('exit',)}}
+           'fin': {'a': ('exit',)}, 'ino_reuse': True, 'fail_cln': True}
     if ctx.quick:
         cfg = dict(base, fin={'a': ('exit', 'abort'), 'b': ('oom',)},
                    crash_points=2)
@@ -176,7 +178,8 @@ RULE = ('BFS over histories of node events: cache file put / deleted / '
         'head delivery; .ready created/touched/deleted; manager restart; node '
         'boot; container finish (exit/abort/oom) with the monitor move at once '
         'or (config N1x2-tomb) later; completion of the cleanup of a given '
-        'link.  non-trivial = distinct expanded states in which two '
+        'link, in two steps, or (config N1x2-cln, 1 deviation) failing inside '
+        'finish() with the container directory still present.  non-trivial = distinct expanded states in which two '
         'generations of one instance coexist under apps/ '
         '(states_with_two_generations, counted over expanded states); syncs with '
         'two generations and both '
@@ -193,8 +196,11 @@ ASSUMPTIONS = [
     'handlers, fs.replace/symlink_safe, MonitorContainerCleanup.execute, '
     'Cleanup.invoke)',
     'os.stat of cache files as seen by treadmill.appcfg is virtualised: '
-    '(st_ino, st_ctime) is a function of (instance, generation, salt), so two '
-    'generations get distinct unique ids; the salt is chosen per hash seed so '
+    '(st_ino, st_ctime) is a function of (instance, generation, salt): all '
+    'ctimes lie within one second, generations differ in inode and sub-second '
+    'ctime (N2x2) or - inode re-used by the file system - in the sub-second '
+    'ctime only (N1x2-tomb, N1x2-cln), so two generations get distinct unique '
+    'ids on the unchanged tree; the salt is chosen per hash seed so '
     'that the set-iteration loop of _synchronize visits instance a older '
     'generation first and instance b newer generation first (both orders '
     'measured > 0, else the run fails as vacuous)',
